@@ -16,6 +16,33 @@ var (
 	certDER  []byte
 )
 
+// bigCertDER is a larger certificate (RSA-4096 key, many SANs) for the slot operations.
+var (
+	bigOnce sync.Once
+	bigDER  []byte
+)
+
+func bigCertDER() []byte {
+	bigOnce.Do(func() {
+		k := keys.RSA(4096, 0)
+		tmpl := &x509.Certificate{
+			SerialNumber: big.NewInt(4096),
+			Subject:      pkix.Name{CommonName: "verif big slot certificate", Organization: []string{"an organisation with a rather long name to make the certificate larger"}},
+			NotBefore:    time.Date(1999, 1, 1, 0, 0, 0, 0, time.UTC),
+			NotAfter:     time.Date(2100, 1, 1, 0, 0, 0, 0, time.UTC),
+		}
+		for i := 0; i < 40; i++ {
+			tmpl.DNSNames = append(tmpl.DNSNames, "host-"+string(rune('a'+i%26))+".subdomain.example.com")
+		}
+		der, err := x509.CreateCertificate(rand.Reader, tmpl, tmpl, k.Public(), k)
+		if err != nil {
+			panic(err)
+		}
+		bigDER = der
+	})
+	return bigDER
+}
+
 // testCertDER is a self-signed P-256 certificate used as slot certificate.
 func testCertDER() []byte {
 	certOnce.Do(func() {
